@@ -2,11 +2,13 @@ module github.com/utreexo/utreexo
 
 go 1.21
 
-require golang.org/x/exp v0.0.0-20220414153411-bcd21879b8fd
+require (
+	github.com/stretchr/testify v1.10.0
+	golang.org/x/exp v0.0.0-20220414153411-bcd21879b8fd
+)
 
 require (
 	github.com/davecgh/go-spew v1.1.1 // indirect
 	github.com/pmezard/go-difflib v1.0.0 // indirect
-	github.com/stretchr/testify v1.10.0 // indirect
 	gopkg.in/yaml.v3 v3.0.1 // indirect
 )
